@@ -1272,10 +1272,10 @@ func doRequestFollowRedirects(
 			if !req.Header.IsGet() && !req.Header.IsHead() {
 				req.Header.SetMethod(MethodGet)
 			}
-			req.Header.Del(HeaderContentLength)
-			req.Header.Del(HeaderContentType)
-			req.Header.Del(HeaderTransferEncoding)
-			req.Header.Del(HeaderTrailer)
+			delHeaderAnyCase(&req.Header, HeaderContentLength)
+			delHeaderAnyCase(&req.Header, HeaderContentType)
+			delHeaderAnyCase(&req.Header, HeaderTransferEncoding)
+			delHeaderAnyCase(&req.Header, HeaderTrailer)
 			req.ResetBody()
 			req.postArgs.Reset()
 			req.parsedPostArgs = false
